@@ -103,3 +103,30 @@ def module_constants(rel, names):
       if n in names:
         out[n] = v
   return out
+
+
+def find_slice(rel, qualname, first_stmt, last_stmt, params):
+  """A *slice* of a long function as a synthetic function: the consecutive statements of one
+  block starting at the statement whose source is `first_stmt` and ending at the one whose source
+  starts with `last_stmt` (both included).  The statements are the real AST nodes."""
+  node, text, info = find(rel, qualname)
+  for parent in ast.walk(node):
+    for field in ('body', 'orelse'):
+      block = getattr(parent, field, None)
+      if not isinstance(block, list):
+        continue
+      for i, st in enumerate(block):
+        if isinstance(st, ast.stmt) and ast.unparse(st).strip().startswith(first_stmt):
+          for j in range(i, len(block)):
+            if ast.unparse(block[j]).strip().startswith(last_stmt):
+              stmts = block[i:j + 1]
+              fn = ast.FunctionDef(name=node.name + '__slice', args=ast.arguments(
+                  posonlyargs=[], args=[ast.arg(arg=p) for p in params], kwonlyargs=[], kw_defaults=[],
+                  defaults=[], vararg=None, kwarg=None), body=stmts, decorator_list=[], returns=None,
+                  lineno=stmts[0].lineno, col_offset=0)
+              seg = '\n'.join(ast.unparse(x) for x in stmts)
+              info2 = dict(info, unit=qualname + ' [slice]', lines=[stmts[0].lineno, stmts[-1].end_lineno],
+                           sha256=hashlib.sha256(seg.encode()).hexdigest()[:16],
+                           slice='statements %r .. %r' % (first_stmt, last_stmt))
+              return fn, seg, info2
+  raise ExtractError('slice %r .. %r not found in %s of %s' % (first_stmt, last_stmt, qualname, rel))
